@@ -96,6 +96,8 @@ def _explore(args):
                 sys.setprofile(None)
     except pse.PseAbort as ex:
         err = "%s: %s" % (type(ex).__name__, ex)
+        if os.environ.get("VERIF_DEBUG"):
+            err += "\n" + "".join(traceback.format_exception(ex))[-2500:]
         e.status = "error"
     except Exception as ex:
         err = "harness exception: %s" % "".join(traceback.format_exception(ex))[-3000:]
@@ -230,36 +232,34 @@ def check_property(prop, tier, seed, out=print):
                 continue
             if agg["status"] != "exhausted":
                 inconclusive.append("%s: %s" % (h.name, agg["status"]))
-            # ---- replay counterexamples (up to 2 per distinct key)
+            # ---- replay counterexamples: per assertion id up to 4 variants (distinct details), one batch process
             groups = {}
             for v in agg["violations"]:
                 v["harness"] = h.name
-                groups.setdefault(vkey(v), []).append(v)
-            agg["violation_keys"] = [list(k) + [len(vs)] for k, vs in groups.items()]
-            for key, vs in groups.items():
+                groups.setdefault(v["assert"], {}).setdefault(vkey(v)[1], v)
+            agg["violation_keys"] = [[a, len(vs)] for a, vs in groups.items()]
+            for aid, variants in groups.items():
                 if not h.real:
-                    harness_errors.append("%s: violation %s found but harness has no real replay" % (h.name, key))
+                    harness_errors.append("%s: violation %s found but harness has no real replay" % (h.name, aid))
                     continue
-                tries = vs[:2]
+                tries = list(variants.values())
+                step = max(1, len(tries) // 4)
+                tries = tries[::step][:4]
                 rr = replay_real(prop, tier, h.name, [v["inputs"] for v in tries])
                 traces_validated += len(rr)
-                rep = None
-                for v, r in zip(tries, rr):
-                    if r.get("violation"):
-                        rep = (v, r)
-                        break
-                if rep is None:
+                reproduced = [(v, r) for v, r in zip(tries, rr) if r.get("violation")]
+                if not reproduced:
                     harness_errors.append("%s: counterexample for %s did not reproduce on the real program (%s) inputs=%s"
-                                          % (h.name, key, json.dumps(rr)[:600], json.dumps(tries[0]["inputs"])[:400]))
+                                          % (h.name, aid, json.dumps(rr)[:600], json.dumps(tries[0]["inputs"])[:400]))
                     continue
-                v, r = rep
-                rv = dict(r["violation"], harness=h.name)
-                k = match_known(known, prop, rv) or match_known(known, prop, v)
-                if k:
-                    known_seen.append((k, v))
-                else:
-                    path = write_replay_file(prop, tier, h.name, v, r)
-                    confirmed.append((v, r, path))
+                for v, r in reproduced:
+                    rv = dict(r["violation"], harness=h.name)
+                    k = match_known(known, prop, rv) or match_known(known, prop, v)
+                    if k:
+                        known_seen.append((k, v))
+                    else:
+                        path = write_replay_file(prop, tier, h.name, v, r)
+                        confirmed.append((v, r, path))
             # ---- conformance: passing paths replayed on the real program must pass there too
             if h.real and h.conformance and not agg["violations"]:
                 vecs = [s["inputs"] for s in agg["samples"][:h.conformance]]
